@@ -127,11 +127,14 @@ class SPIMaster(LiteXModule):
 
         # Chip Select generation -------------------------------------------------------------------
         if hasattr(pads, "cs_n"):
+            # CS is inactive (high) out of reset.
+            cs_n = Signal(len(pads.cs_n), reset=2**len(pads.cs_n) - 1)
+            self.comb += pads.cs_n.eq(cs_n)
             for i in range(len(pads.cs_n)):
                 # CS set when enabled and (Xfer enabled or Manual CS mode selected).
                 cs = (self.cs[i] & (xfer_enable | (self.cs_mode == 1)))
                 # CS Output/Invert.
-                self.sync += pads.cs_n[i].eq(~cs)
+                self.sync += cs_n[i].eq(~cs)
 
         # Master Out Slave In (MOSI) generation (generated on spi_clk falling edge) ----------------
         mosi_data  = Signal(data_width)
